@@ -259,6 +259,11 @@ func (inv *Invoice) Invert() error {
 		return err
 	}
 
+	if inv.Totals == nil {
+		// the totals provided did not belong to these lines
+		return errors.New("cannot invert invoice without totals")
+	}
+
 	// The following check tries to ensure that any future fields do not cause
 	// unexpected results.
 	if !payable.Equals(inv.Totals.Payable) {
